@@ -25,5 +25,6 @@ INVARIANT LawEmptyLabel
 INVARIANT LawKeptInOrder
 INVARIANT LawExportShape
 INVARIANT LawRoundTrip
+INVARIANT LawLimbFloor
 PROPERTY Terminates
 CHECK_DEADLOCK FALSE
